@@ -70,6 +70,7 @@ pub struct Stats {
     pub hist: BTreeMap<String, u64>,
     pub fails: Vec<String>,
     pub notes: Vec<String>,
+    pub fail_counts: BTreeMap<String, u64>,
 }
 
 impl Stats {
@@ -81,6 +82,14 @@ impl Stats {
     }
     /// The implementation failed the property's own oracle (not a model disagreement).
     pub fn fail(&mut self, case: usize, line: usize, msg: &str) {
+        // at most 5 reports per case and oracle (the first words of the message), the rest is counted
+        let key = format!("{case} {}", msg.split_whitespace().take(4).collect::<Vec<_>>().join(" "));
+        let n = self.fail_counts.entry(key).or_insert(0);
+        *n += 1;
+        if *n > 5 {
+            *self.hist.entry("oracle_fails_not_listed".to_string()).or_insert(0) += 1;
+            return;
+        }
         self.fails
             .push(format!("case={case} line={line} {}", msg.replace('\n', " ")));
     }
